@@ -25,5 +25,16 @@ rows.append('')
 rows.append('%d seeds, %d flagged by the rules as they stood before the seed was seen, all flagged now.' % (n, y))
 body2 = '<!-- SEEDS:BEGIN -->\n' + '\n'.join(rows) + '\n<!-- SEEDS:END -->'
 s = re.sub(r'<!-- SEEDS:BEGIN -->.*?<!-- SEEDS:END -->', lambda m: body2, s, flags=re.S)
+import sys
+sys.path.insert(0, '/verif')
+from txsa import rules as _r
+rows = ['| property | rule | what it decides | self-test mutants / twins |', '|---|---|---|---|']
+for pid in _r.PROPS:
+    m = _r.load(pid)
+    nm, nt = len(getattr(m, 'MUTANTS', [])), len(getattr(m, 'TWINS', []))
+    for i, (rid, text, fn) in enumerate(sorted(m.RULES, key=lambda x: x[0])):
+        rows.append('| %s | %s | %s | %s |' % (pid if i == 0 else '', rid, text.replace('|', '/'), ('%d / %d (+3 automatic twins)' % (nm, nt)) if i == 0 else ''))
+body3 = '<!-- RULES:BEGIN -->\n' + '\n'.join(rows) + '\n<!-- RULES:END -->'
+s = re.sub(r'<!-- RULES:BEGIN -->.*?<!-- RULES:END -->', lambda m_: body3, s, flags=re.S)
 open(p, 'w').write(s)
 print('findings', len(kf), 'seeds', n, 'first-run', y)
